@@ -363,9 +363,9 @@ def run_check(pid: str, tier: str) -> int:
             ctx = execute_run(mod, pid, rseed, ri, tier, replay=(d.get("choices") if d else None), params=rparams, timeout=timeout)
             rec = ctx.recording()
             path = write_replay(pid, rseed, ri, tier, rparams, rec, sig, v["msg"], ctx, False)
-            if i < 4:
+            if i < 3:
                 srec, n_exec = shrink(mod, pid, rseed, ri, tier, rparams, rec, sig, timeout,
-                                      max_execs=300 if tier == "thorough" else 150, max_wall=60 if tier == "thorough" else 30)
+                                      max_execs=300 if tier == "thorough" else 120, max_wall=45 if tier == "thorough" else 12)
                 sctx = _has_sig(mod, pid, rseed, ri, tier, rparams, srec, sig, timeout)
                 if sctx is not None:
                     spath = write_replay(pid, rseed, ri, tier, rparams, sctx.recording(), sig, v["msg"], sctx, True, tag="-min")
